@@ -7,6 +7,7 @@ if [ "$1" = "--round3" ]; then PFX=/tmp/wv_; OFF=4; shift; fi
 if [ "$1" = "--round4" ]; then PFX=/tmp/ww_; OFF=6; shift; fi
 if [ "$1" = "--round5" ]; then PFX=/tmp/wx_; OFF=8; shift; fi
 if [ "$1" = "--round6" ]; then PFX=/tmp/wy_; OFF=10; shift; fi
+if [ "$1" = "--round7" ]; then PFX=/tmp/wz_; OFF=12; shift; fi
 mkdir -p /tmp/seedlogs
 for p in "$@"; do for k in 1 2; do
   [ -d $PFX$p/BREAK/$k ] && tools/try_seeded.sh $PFX$p/BREAK/$k $p > /tmp/seedlogs/$p-$((k+OFF)).log 2>&1 &
